@@ -43,8 +43,6 @@ def one_run(prop, tier, verif_seed, index, xgi):
     cfg = props.config(prop, seed, tier)
     s = sim.Sim(prop, cfg, seed, xgi)
     s.hooks = hooks_for(prop)
-    if s.hooks is not None and hasattr(s.hooks, "init"):
-        s.hooks.init(s)
     res = s.run_generated(cfg["steps"])
     res["index"] = index
     res["seed"] = seed
